@@ -565,6 +565,22 @@ where
                 }
 
                 let token = DataToken::from(header);
+                // a data set sequence or pixel data fragment sequence
+                // is always emitted as one,
+                // even if the element does not declare the usual VR
+                // (e.g. UN in sequences of private attributes)
+                let token = match (token, elem.value()) {
+                    (DataToken::ElementHeader(h), Value::Sequence(_)) => DataToken::SequenceStart {
+                        tag: h.tag,
+                        len: h.len,
+                    },
+                    (DataToken::ElementHeader(h), Value::PixelSequence(_))
+                        if h.tag == Tag(0x7fe0, 0x0010) =>
+                    {
+                        DataToken::PixelSequenceStart
+                    }
+                    (token, _) => token,
+                };
                 match token {
                     DataToken::SequenceStart { tag, len } => {
                         // retrieve sequence value, begin item sequence
